@@ -527,6 +527,27 @@ theorem C16_error_handler (eh : Option (Nat → Nat)) (codec : String → Codec)
     subst this
     simp
 
+/-- **Streaming.** However the handler consumes the body — all at once, in chunks, a prefix only, not at all —
+what it has in hand is a prefix of what a full read yields, hence never more than the limit. -/
+theorem C16_limit_any_read_mode (codec : String → Codec) (s : Server) (r : Request) (m : ReadMode) (st : Stream)
+    (h : (serveS codec s r).read m = .handled st) :
+    st.data.length ≤ s.limit ∧ ∃ full, serveS codec s r = .handled full ∧ st.data = full.data.take st.data.length := by
+  cases ho : serveS codec s r with
+  | rejected x => simp [ho, Outcome.read] at h
+  | panicked => simp [ho, Outcome.read] at h
+  | handled full =>
+    have hl := C16_limit_custom codec s r full ho
+    simp only [ho, Outcome.read, Outcome.handled.injEq] at h
+    subst h
+    cases m with
+    | all => exact ⟨hl, full, rfl, by simp [handlerReads]⟩
+    | none => exact ⟨by simp [handlerReads], full, rfl, by simp [handlerReads]⟩
+    | upTo k =>
+      by_cases hk : k ≤ full.data.length
+      · refine ⟨by simp [handlerReads, hk]; omega, full, rfl, ?_⟩
+        simp [handlerReads, hk, Nat.min_eq_left hk]
+      · exact ⟨by simp [handlerReads, hk]; exact hl, full, rfl, by simp [handlerReads, hk]⟩
+
 theorem C16_package_state_only_read : Compression.availableDecodersOnlyRead = true := by decide
 
 /-- **Isolation.** Whatever servers (with whatever `WithDecoder` options) were built before, the process-level
